@@ -4,6 +4,7 @@
 //   * read() / write() move the full count unless the peer closed (then what was moved) ...; recv() returns at least one byte unless EOF
 //   * the stream timeout bounds the WHOLE read()/write() call (ETIMEDOUT), it does not restart with every partial transfer
 //   * a readiness event for one direction of a descriptor does not lose the waiter of the other direction
+#include "../../../repo/common/iovector.cpp"
 #include "../../../repo/io/epoll.cpp"
 #include "../../../repo/net/basic_socket.cpp"
 #include "../../../repo/net/kernel_socket.cpp"
